@@ -40,7 +40,7 @@ def machineOf (name : String) : Option Machine :=
   | "coalesce" => some Coalesce.machine
   | "fallback" => some Fallback.machine
   | "chaos" => some Chaos.machine
-  | "timelimiter" => some TimeLimiter.machine
+  | "timelimiter" => some TimeLimiter.machineK
   | "budget" => some Budget.machineT
   | "stack" => some Stack.machine
   | "limit" => some Limit.machineT
